@@ -429,8 +429,8 @@ class PNest(Component):
 
 
 PB_PALETTE = {"PComb": PComb, "PReg": PReg, "PMix": PMix, "PNest": PNest}
-PB_POSITIONS = ["c", "l[0]", "l[1]", "m", "m.g"]
-PB_K = {"c": 1, "l[0]": 2, "l[1]": 4, "m.g": 9}
+PB_POSITIONS = ["c", "l[0]", "l[1]", "m", "m.g", "h.g"]
+PB_K = {"c": 1, "l[0]": 2, "l[1]": 4, "m.g": 9, "h.g": 6}
 
 
 class PBMid(Component):
@@ -441,6 +441,8 @@ class PBMid(Component):
         s.o = OutPort(Bits8)
         s.q = OutPort(Bits4)
         s.g = G(PB_K["m.g"])
+        s.f = PLeaf(3)                  # a second, fixed child (read from the top through this component)
+        s.f.in_ //= s.in_
         s.g.iu //= s.in_
         s.g.ifn //= 3
         s.g.io //= s.in_
@@ -468,6 +470,8 @@ class PBMidB(Component):
         s.o = OutPort(Bits8)
         s.q = OutPort(Bits4)
         s.g = G(PB_K["m.g"])
+        s.f = PLeaf(3)
+        s.f.in_ //= s.in_
 
         @update
         def up_midb():
@@ -492,6 +496,27 @@ class PBMidB(Component):
 PB_HOSTS = {"PBMid": PBMid, "PBMidB": PBMidB}
 
 
+class PBFix(Component):
+    """fixed (not replaceable) host of the position h.g, whose port a block of the TOP reads"""
+    def construct(s, G):
+        s.in_ = InPort(Bits8)
+        s.o = OutPort(Bits8)
+        s.g = G(PB_K["h.g"])
+        s.st = Wire(Pair)
+        s.g.iu //= s.in_
+        s.g.if_ //= s.in_
+        s.g.il //= s.in_
+        s.g.ifn //= 1
+        s.g.io //= s.in_
+        s.g.ist //= s.st
+        s.o //= s.g.o
+
+        @update
+        def up_fix():
+            s.st.a @= s.in_[4:8]
+            s.st.b @= s.in_[0:4]
+
+
 class PBTop(Component):
     def construct(s, cfg):
         P = PB_PALETTE
@@ -512,6 +537,7 @@ class PBTop(Component):
         s.c = P[cfg["c"]](K["c"])
         s.l = [P[cfg["l[%d]" % i]](K["l[%d]" % i]) for i in range(2)]
         s.m = PB_HOSTS[cfg["m"]](P[cfg["m.g"]])
+        s.h = PBFix(P[cfg["h.g"]])
 
         # ---- plain child c: every kind of block writes one of its in-ports ...
         @update
@@ -592,13 +618,15 @@ class PBTop(Component):
 
         s.t5 //= lambda: s.l[1].ost.a
 
-        # ---- hosting position m and grand-child m.g: a block two levels above the grand-child reads
-        #      its port
+        # ---- hosting position m: a block of the top reads a port of m's fixed child through m;
+        #      position h.g below the fixed host h: a block TWO levels above the replaced component
+        #      reads its port
         s.m.in_ //= s.c.o
+        s.h.in_ //= s.in_
 
         @update
         def up_deep():
-            s.t6 @= s.m.g.o + s.m.o
+            s.t6 @= s.h.g.o + s.m.f.out + s.m.o
 
         s.out[0] //= s.r0
         s.out[1] //= s.t_once
